@@ -5,8 +5,16 @@ package signer
 
 // A response carries a signature iff its state is SUCCEEDED (C06).
 
+// What protobuf-go hands to a handler after decoding a message from the wire (assumed; C20 is about wire input):
+// a oneof field is nil or holds a non-nil wrapper; a bytes field without presence is nil or was allocated by append
+// (capacity rounded up to at least 8, so slicing its first four bytes cannot panic).
+//@ spec wireSign(r *pb.SignRequest) bool = r != nil ==> (hastype(r.Id, "*pb.SignRequest_PublicKey") ==> unbox(r.Id, "*pb.SignRequest_PublicKey") != nil) && (hastype(r.Id, "*pb.SignRequest_Account") ==> unbox(r.Id, "*pb.SignRequest_Account") != nil) && (r.Domain == nil || cap(r.Domain) >= 4)
+//@ spec wireAtt(r *pb.SignBeaconAttestationRequest) bool = r != nil ==> (hastype(r.Id, "*pb.SignBeaconAttestationRequest_PublicKey") ==> unbox(r.Id, "*pb.SignBeaconAttestationRequest_PublicKey") != nil) && (hastype(r.Id, "*pb.SignBeaconAttestationRequest_Account") ==> unbox(r.Id, "*pb.SignBeaconAttestationRequest_Account") != nil) && (r.Domain == nil || cap(r.Domain) >= 4)
+//@ spec wireProp(r *pb.SignBeaconProposalRequest) bool = r != nil ==> (hastype(r.Id, "*pb.SignBeaconProposalRequest_PublicKey") ==> unbox(r.Id, "*pb.SignBeaconProposalRequest_PublicKey") != nil) && (hastype(r.Id, "*pb.SignBeaconProposalRequest_Account") ==> unbox(r.Id, "*pb.SignBeaconProposalRequest_Account") != nil) && (r.Domain == nil || cap(r.Domain) >= 4)
+
 //@ func (*Handler).SignBeaconAttestation
 //@ requires h != nil
+//@ requires [wire] wireAtt(req)
 //@ requires [unlocked] !prelocked && (forall k [48]byte :: !held[k])
 //@ modifies tokroot, db, checkedset, held, prelocked
 //@ ensures [released] !prelocked && (forall k [48]byte :: !held[k])
@@ -14,6 +22,7 @@ package signer
 
 //@ func (*Handler).SignBeaconProposal
 //@ requires h != nil
+//@ requires [wire] wireProp(req)
 //@ requires [unlocked] !prelocked && (forall k [48]byte :: !held[k])
 //@ modifies tokroot, db, checkedset, held, prelocked
 //@ ensures [released] !prelocked && (forall k [48]byte :: !held[k])
@@ -21,6 +30,7 @@ package signer
 
 //@ func (*Handler).Sign
 //@ requires h != nil
+//@ requires [wire] wireSign(req)
 //@ requires [unlocked] !prelocked && (forall k [48]byte :: !held[k])
 //@ modifies tokroot, db, checkedset, held, prelocked
 //@ ensures [released] !prelocked && (forall k [48]byte :: !held[k])
@@ -33,6 +43,7 @@ package signer
 
 //@ func validateMultisignRequests
 //@ requires req != nil && respsOK(res, len(req.Requests))
+//@ requires [wire] forall j int :: 0 <= j && j < len(req.Requests) ==> wireSign(req.Requests[j])
 //@ modifies each(j, 0, len(res.Responses), res.Responses[j].State)
 //@ ensures [states] forall j int :: 0 <= j && j < len(res.Responses) ==> res.Responses[j].State == old(res.Responses[j].State) || res.Responses[j].State == pb.ResponseState_DENIED || res.Responses[j].State == pb.ResponseState_FAILED
 //@ loop #1
@@ -41,6 +52,7 @@ package signer
 
 //@ func validateSignBeaconAttestationsRequests
 //@ requires req != nil && respsOK(res, len(req.Requests))
+//@ requires [wire] forall j int :: 0 <= j && j < len(req.Requests) ==> wireAtt(req.Requests[j])
 //@ modifies each(j, 0, len(res.Responses), res.Responses[j].State)
 //@ ensures [states] forall j int :: 0 <= j && j < len(res.Responses) ==> res.Responses[j].State == old(res.Responses[j].State) || res.Responses[j].State == pb.ResponseState_DENIED || res.Responses[j].State == pb.ResponseState_FAILED
 //@ loop #1
@@ -49,6 +61,7 @@ package signer
 
 //@ func (*Handler).Multisign
 //@ requires h != nil
+//@ requires [wire] req != nil ==> (forall j int :: 0 <= j && j < len(req.Requests) ==> wireSign(req.Requests[j]))
 //@ requires [unlocked] !prelocked && (forall k [48]byte :: !held[k])
 //@ modifies tokroot, db, checkedset, held, prelocked
 //@ ensures [released] !prelocked && (forall k [48]byte :: !held[k])
@@ -63,6 +76,8 @@ package signer
 //@ invariant [range] 0 <= _n && _n <= len(req.Requests)
 //@ loop #3
 //@ invariant [range] 0 <= _n && _n <= len(req.Requests) && len(accountNames) == len(req.Requests) && len(pubKeys) == len(req.Requests) && len(reqData) == len(req.Requests) && fresh(accountNames) && fresh(pubKeys) && fresh(reqData)
+//@ invariant [domain] forall j int :: 0 <= j && j < _n ==> reqData[j] != nil && (reqData[j].Domain == nil || cap(reqData[j].Domain) >= 4)
+//@ invariant [rest] forall j int :: _n <= j && j < len(reqData) ==> reqData[j] == nil
 //@ loop #4
 //@ invariant [range] 0 <= _n && _n <= len(results)
 //@ invariant [resps] len(res.Responses) == len(results) && (forall j int :: 0 <= j && j < len(res.Responses) ==> res.Responses[j] != nil && fresh(res.Responses[j]) && allocated(res.Responses[j])) && (forall j int, k int :: 0 <= j && j < k && k < len(res.Responses) ==> res.Responses[j] != res.Responses[k])
@@ -73,6 +88,7 @@ package signer
 
 //@ func (*Handler).SignBeaconAttestations
 //@ requires h != nil
+//@ requires [wire] req != nil ==> (forall j int :: 0 <= j && j < len(req.Requests) ==> wireAtt(req.Requests[j]))
 //@ requires [unlocked] !prelocked && (forall k [48]byte :: !held[k])
 //@ modifies tokroot, db, checkedset, held, prelocked
 //@ ensures [released] !prelocked && (forall k [48]byte :: !held[k])
@@ -87,6 +103,8 @@ package signer
 //@ invariant [range] 0 <= _n && _n <= len(req.Requests)
 //@ loop #3
 //@ invariant [range] 0 <= _n && _n <= len(req.Requests) && len(accountNames) == len(req.Requests) && len(pubKeys) == len(req.Requests) && len(reqData) == len(req.Requests) && fresh(accountNames) && fresh(pubKeys) && fresh(reqData)
+//@ invariant [domain] forall j int :: 0 <= j && j < _n ==> reqData[j] != nil && (reqData[j].Domain == nil || cap(reqData[j].Domain) >= 4)
+//@ invariant [rest] forall j int :: _n <= j && j < len(reqData) ==> reqData[j] == nil
 //@ loop #4
 //@ invariant [range] 0 <= _n && _n <= len(results)
 //@ invariant [resps] len(res.Responses) == len(results) && (forall j int :: 0 <= j && j < len(res.Responses) ==> res.Responses[j] != nil && fresh(res.Responses[j]) && allocated(res.Responses[j])) && (forall j int, k int :: 0 <= j && j < k && k < len(res.Responses) ==> res.Responses[j] != res.Responses[k])
